@@ -283,8 +283,9 @@ def _run_part(ctx, cov, t0):
     groups = {k[6:]: v for k, v in q.items() if k.startswith("group ")}
     cov["groups"] = {k: len(v) for k, v in groups.items()}
     cov["delegating_entries"] = dict(zip(groups.get("delegating", []), q.get("entries", [])))
-    cov["composites_with_adjoint_theorem"] = [c for c in ADJOINT_PROVED if c in groups.get("composite", [])]
-    cov["composites_reviewed_only"] = [c for c in groups.get("composite", []) if c not in ADJOINT_PROVED]
+    proved = {m.group(1) for m in re.finditer(r"C01_bw_adjoint_(\w+)", " ".join(res["theorems"]))}
+    cov["composites_with_adjoint_theorem"] = [c for c in groups.get("composite", []) if c in proved]
+    cov["composites_reviewed_only"] = [c for c in groups.get("composite", []) if c not in proved]
     offending = {k: v for k, v in q.items() if k.startswith("C01_") and v}
     if "<coqc failed>" in q:
         offending["<query>"] = q["<coqc failed>"]
